@@ -281,6 +281,17 @@ pub fn ladder(rng: &mut Rng, depth: u32) -> T {
     t
 }
 
+/// both players' ladders interleaved: `depth` stop/go decisions each, alternating; stopping pays
+/// little, walking to the end pays `2^exp`.  Under uniform play both own reaches at the bottom are
+/// `2^-depth` (far below `f64::EPSILON` for depth > 52) while reach x payoff is of order one.
+pub fn deep_alternating(rng: &mut Rng, depth: u32, exp: i32) -> T {
+    let mut t = T::Term(2f64.powi(exp) * if rng.chance(0.5) { 1.0 } else { -1.0 });
+    for d in (0..2 * depth).rev() {
+        t = T::Player(d % 2 == 0, d / 2, vec![(0, T::Term(rng.unit() * 2.0 - 1.0)), (1, t)]);
+    }
+    t
+}
+
 /// one infoset shared by many nodes behind an unobserved chance move
 pub fn wide_infoset(rng: &mut Rng, width: u32, acts: u32) -> T {
     T::Chance(
